@@ -117,35 +117,40 @@ def bkMajoranaOk (n : Nat) (A : MOp) : Bool := C04.sumOk tol (A.map fun tc => bk
 
 /-! ### `fenwick_tree.py`: parent pointers and children lists built by the recursion -/
 
+/-- the node objects of `FenwickTree`, indexed by their position in `self.nodes`: `parent k` is
+`nodes[k].parent` (as an index), `children k` is `[c.index for c in nodes[k].children]`; attribute
+assignments are modelled as function updates -/
 structure Tree where
-  parent : List (Option Nat)
-  children : List (List Nat)
-deriving Repr
+  parent : Nat → Option Nat
+  children : Nat → List Nat
+
+def Tree.init : Tree := ⟨fun _ => none, fun _ => []⟩
 
 /-- `fenwick(left, right, parent)`; `right` is carried as `right + 1` so that `-1` is representable;
-fuel bounds the recursion depth + width (`n + 1` suffices: every call with `left < right` consumes a node) -/
+fuel bounds the recursion (`2 n + 2` suffices: every call with `left < right` consumes a node) -/
 def fenwickRec : Nat → Nat → Nat → Nat → Tree → Tree
   | 0, _, _, _, t => t
   | fuel + 1, left, right1, par, t =>
     if right1 = 0 ∨ left ≥ right1 - 1 then t else
     let right := right1 - 1
     let pivot := (left + right) / 2
-    let t1 : Tree := ⟨t.parent.set pivot (some par), t.children.modify par (· ++ [pivot])⟩
+    -- child.parent = parent; parent.children.append(child)
+    let t1 : Tree := ⟨fun k => if k = pivot then some par else t.parent k,
+                      fun k => if k = par then t.children k ++ [pivot] else t.children k⟩
     let t2 := fenwickRec fuel left (pivot + 1) pivot t1
     fenwickRec fuel (pivot + 1) right1 par t2
 
-def mkTree (n : Nat) : Tree :=
-  fenwickRec (2 * n + 2) 0 n (n - 1) ⟨List.replicate n none, List.replicate n []⟩
+def mkTree (n : Nat) : Tree := fenwickRec (2 * n + 2) 0 n (n - 1) Tree.init
 
 /-- `get_ancestors`: parents from the nearest up to the root -/
 def ancestors (t : Tree) : Nat → Nat → List Nat
   | 0, _ => []
-  | fuel + 1, j => match t.parent.getD j none with
+  | fuel + 1, j => match t.parent j with
     | none => []
     | some p => p :: ancestors t fuel p
 
 def treeUpdate (t : Tree) (n j : Nat) : List Nat := ancestors t n j
-def treeChildren (t : Tree) (j : Nat) : List Nat := t.children.getD j []
+def treeChildren (t : Tree) (j : Nat) : List Nat := t.children j
 def treeRemainder (t : Tree) (n j : Nat) : List Nat :=
   (treeUpdate t n j).flatMap fun a => (treeChildren t a).filter fun c => c < j
 def treeParity (t : Tree) (n j : Nat) : List Nat := treeRemainder t n j ++ treeChildren t j
@@ -166,6 +171,9 @@ def bkTreeTerm (tr : Tree) (n : Nat) (t : Term) (c : GQ) : Op :=
 def bkTreeFermion (n : Nat) (A : Op) : Op :=
   let tr := mkTree n
   A.foldl (fun acc (t, c) => iadd tol acc (bkTreeTerm tol tr n t c)) []
+
+def bkTreeFermionOk (n : Nat) (A : Op) : Bool :=
+  C04.sumOk tol (A.map fun tc => bkTreeTerm tol (mkTree n) n tc.1 tc.2)
 
 /-! ### `_seeley_richard_love` -/
 
